@@ -45,6 +45,7 @@ fn main() {
             let tier = Tier::parse(&args[3]).unwrap_or_else(|| usage());
             match args[2].as_str() {
                 "C04" | "C05" | "C06" => jbkv::faults::check_cmd(&args[2], tier),
+                "C09" => jbkv::crash::check_cmd(tier),
                 id => dispatch!(id, run_check, tier),
             }
         }
@@ -63,7 +64,7 @@ fn main() {
                 usage();
             }
             match args[2].as_str() {
-                "C04" | "C05" | "C06" => match replay_in_child(&args[2], Path::new(&args[3])) {
+                "C04" | "C05" | "C06" | "C09" => match replay_in_child(&args[2], Path::new(&args[3])) {
                     ReplayOutcome::Pass => {
                         println!("PASS property={} replay={}", args[2], args[3]);
                         0
@@ -77,9 +78,11 @@ fn main() {
                 id => dispatch!(id, replay_cmd, Path::new(&args[3])),
             }
         }
+        "create-child" => jbkv::crash::create_child_cmd(Path::new(&args[2]), Path::new(&args[3]), &args[4]),
         "gen-corpus" => props::c14::gen_corpus(Path::new(&args[2]), args[3].parse().unwrap(), &args[4]),
         "replay-child" => match args[2].as_str() {
             "C04" | "C05" | "C06" => jbkv::faults::replay_child_cmd(&args[2], Path::new(&args[3])),
+            "C09" => jbkv::crash::replay_child_cmd(Path::new(&args[3])),
             id => dispatch!(id, replay_child, Path::new(&args[3])),
         },
         _ => usage(),
